@@ -801,6 +801,10 @@ func (c *Candidates) GetTotalStake(pubkey types.Pubkey) *big.Int {
 // GetStakes returns list of stakes of candidate with given public key
 func (c *Candidates) GetStakes(pubkey types.Pubkey) []*stake {
 	candidate := c.GetCandidate(pubkey)
+	if candidate == nil {
+		// the candidate may have been removed since the caller listed it (API queries run next to block execution)
+		return nil
+	}
 
 	var stakes []*stake
 	for i := 0; i < MaxDelegatorsPerCandidate; i++ {
